@@ -304,7 +304,7 @@ PROPS = {
         "design_ref": "DESIGN.md section 5, C20",
     },
     "C01": {
-        "modules": ["Qvnt.Props.C01"],
+        "modules": ["Qvnt.Props.C01", "Qvnt.Props.Code.C01"],
         "tie": [tie(r".*_(op|isValid|actsOn|new)_eq|rotate_eq|negWord_eq|yIPow_eq|forEach_eq|ctrlTest_iff|count_bits_eq", sources=r"UNSUPPORTED (?!class\.rs|dispatch\.rs: dispatch\.rs::for_each_par)"), tie2(r"single_(apply|from)_eq|multi_apply_eq|quant_apply_eq|h_(loop|h)_eq|pauli_\w+_eq|rotate_\w+_eq|swapmod_\w+_eq|op_\w+_eq|checked_eq|multi_matrix_eq|matrixArr_eq_matrix", r"UNSUPPORTED (mod\.rs: operator/|h\.rs|pauli\.rs|rotate\.rs|swap\.rs|applicable\.rs|quant\.rs: register/quant\.rs::apply:)")],
         "suites": [
             suite("c01x", dict(count=0, max_n=3), dict(count=0, max_n=4)),
